@@ -1,6 +1,6 @@
 #include "ref_all.h"
 #include <string.h>
-#ifdef HAVE_REF_LH1
+#if 1
 #include "ref_lh1.h"
 #endif
 #ifdef HAVE_REF_PM
@@ -20,7 +20,7 @@ long ref_decode(const char *method, const uint8_t *in, size_t n, size_t declared
 	if (!strcmp(method, "-lzs-")) return (long) ref_lzs_decode(in, n, declared, out);
 	m = ref_lh_params_for(method);
 	if (m) return (long) ref_lh_decode(m, in, n, declared, out, err);
-#ifdef HAVE_REF_LH1
+#if 1
 	if (!strcmp(method, "-lh1-")) return (long) ref_lh1_decode(in, n, declared, out);
 #endif
 #ifdef HAVE_REF_PM
